@@ -513,7 +513,7 @@ class AlgebraProfile(FieldProfile):
                 v[ax] = float(mm.cell[ax]) * rng.choice([1, 2, -1])
                 f = rng.choice(["add", "mul", "sub"])
                 queue += [{"op": "translate", "on": mb, "v": v, "inplace": True, "out": None},
-                          {"op": "A.reject", "a": a, "b": b, "f": f, "fault": "rejected_args"}, {"op": "A.reject", "a": b, "b": a, "f": rng.choice(["dot", "add"]), "fault": "rejected_args"}]
+                          {"op": "A.reject", "a": a, "b": b, "f": f, "fault": "rejected_args"}, {"op": "A.reject", "a": b, "b": a, "f": rng.choice(["dot", "add", "np.add"]), "fault": "rejected_args"}]
                 st.stats.probe("evaluate_move_mesh_evaluate")
                 return {"op": "A.binary", "a": a, "b": b, "f": f, "out": out}
         if rng.random() < cfg["p_reject"] and len(fields) >= 2:
@@ -530,7 +530,7 @@ class AlgebraProfile(FieldProfile):
                 bad = {"vec": [1.0] * rng.choice([k for k in (2, 3, 4, 5) if k != nv]), "as": rng.choice(["list", "tuple", "ndarray"])} if nv > 1 and rng.random() < 0.6 else {"bad": rng.choice(["str", "none", "dict"])}
                 return {"op": "A.reject", "a": a, "b": bad, "f": rng.choice(["add", "sub", "sub", "mul", "truediv"]), "reflected": rng.random() < 0.6, "fault": "rejected_args"}
             b = rng.choice([s for s in fields if s != a])
-            return {"op": "A.reject", "a": a, "b": b, "f": rng.choice(["add", "sub", "mul", "truediv", "dot", "cross", "angle", "lshift"]), "fault": "rejected_args"}
+            return {"op": "A.reject", "a": a, "b": b, "f": rng.choice(["add", "sub", "mul", "truediv", "dot", "cross", "angle", "lshift", "np.add", "np.multiply", "np.subtract"]), "fault": "rejected_args"}
         r = rng.random()
         if r < 0.12:
             return {"op": "A.unary", "on": a, "f": rng.choice(["neg", "pos", "abs"]), "out": out}
@@ -562,6 +562,10 @@ class AlgebraProfile(FieldProfile):
         if r < 0.86:
             same = [s for s in fields if st.h[s].box.v.key()[:2] == ha.box.v.key()[:2]]
             return {"op": "A.commute", "a": a, "b": rng.choice(same), "f": rng.choice(["mul", "add"])}
+        if r < 0.88:
+            if rng.random() < 0.5:
+                return {"op": "A.commute_num", "on": a, "kind": "npnum", "v": rng.choice([2.0, -1.0, 0.5, 3.0]), "np": rng.choice(["float64", "float64", "float32", "int64"]), "f": rng.choice(["mul", "add"])}
+            return {"op": "A.commute_num", "on": a, "kind": "nparr", "v": [rng.choice([1.0, -2.0, 0.5, 3.0]) for _ in range(ha.fm.nvdim if ha.fm.nvdim > 1 else rng.choice([1, 3]))], "f": rng.choice(["mul", "add"])}
         if r < 0.91:
             return {"op": "A.cplx", "on": a, "f": rng.choice(["real", "imag", "conjugate", "phase", "abs"]), "out": out}
         if r < 0.94:
@@ -654,6 +658,13 @@ class ValidityProfile(FieldProfile):
             if rng.random() < 0.3:
                 return {"op": "D.vcalc", "on": a, "f": rng.choice(["grad", "div", "curl", "laplace", "laplace"]), "out": out}
             return {"op": "D.diff", "on": a, "d": rng.randrange(nd), "order": rng.choice([1, 2]), "r2v": rng.random() < 0.7, "out": out}
+        if r < 0.42 and ha.fm.array.dtype.kind != "c":
+            # the same operations spelt as numpy ufuncs
+            if rng.random() < 0.5:
+                return {"op": "A.ufunc", "f": rng.choice(["sin", "negative", "absolute", "square"]), "args": [a], "out": out}
+            sm = [s for s in same if st.h[s].fm.nvdim == ha.fm.nvdim and st.h[s].fm.array.dtype.kind != "c"]
+            b = rng.choice(sm) if sm and rng.random() < 0.7 else {"num": 2.0}
+            return {"op": "A.ufunc", "f": rng.choice(["add", "multiply", "subtract"]), "args": [a, b] if rng.random() < 0.6 or isinstance(b, int) else [b, a], "out": out}
         if r < 0.44:
             # a number on the left: 0 + f, 1 * f, ... are results like any other
             return {"op": "A.binary", "a": a, "b": {"num": rng.choice([0, 0, 1, 2, -1])}, "f": rng.choice(["add", "add", "mul", "sub"]), "reflected": rng.random() < 0.7, "out": out}
